@@ -75,6 +75,7 @@ func (l *memLoader) requestSet() []string {
 }
 
 type expandRun struct {
+	OptsDiff string // non-empty: the caller's option structure changed during the call
 	Err      error
 	Panic    string
 	OutBytes []byte
@@ -99,6 +100,7 @@ func runExpandSpecOn(rootJSON []byte, c gen.GraphCase, refused map[string]bool, 
 		opts.RelativeBase = c.Root
 	}
 	opts.PathLoader = l.load
+	before := opts
 	func() {
 		defer func() {
 			if r := recover(); r != nil {
@@ -107,6 +109,9 @@ func runExpandSpecOn(rootJSON []byte, c gen.GraphCase, refused map[string]bool, 
 		}()
 		res.Err = spec.ExpandSpec(&sw, &opts)
 	}()
+	if opts.RelativeBase != before.RelativeBase || opts.SkipSchemas != before.SkipSchemas || opts.ContinueOnError != before.ContinueOnError || opts.AbsoluteCircularRef != before.AbsoluteCircularRef || opts.PathLoader == nil {
+		res.OptsDiff = fmt.Sprintf("RelativeBase %q -> %q (flags %v/%v/%v -> %v/%v/%v)", before.RelativeBase, opts.RelativeBase, before.SkipSchemas, before.ContinueOnError, before.AbsoluteCircularRef, opts.SkipSchemas, opts.ContinueOnError, opts.AbsoluteCircularRef)
+	}
 	res.Loads = l.requests()
 	if res.Panic != "" {
 		return
